@@ -291,7 +291,7 @@ EDITS = {
     "path3d": ["v_item", "entity_points", "entity_color", "entity_layer", "apply_transform", "meta_nested", "v_iadd", "vattr_item"],
     "points": ["v_item", "color_item", "apply_transform", "meta_nested", "v_iadd", "assign_fewer", "color_single"],
     "scene": ["edge_update", "geom_v_item", "geom_transform", "add_geometry", "delete_geometry", "meta_nested", "graph_setitem", "geom_color", "edge_meta_inplace", "geom_color_other", "camera_param", "camera_move", "light_param"],
-    "voxel": ["apply_transform", "apply_scale", "transform_inplace", "meta_nested", "encoding_item"],
+    "voxel": ["apply_transform", "apply_scale", "transform_inplace", "meta_nested", "encoding_item", "encoding_flat_inplace"],
 }
 
 
@@ -540,6 +540,27 @@ def apply_edit(kind, o, e):
                 T[:3, 3] += d
             except ValueError:
                 # a read-only matrix: in-place editing is refused, which certainly cannot leak
+                raise Inapplicable()
+        elif k == "encoding_flat_inplace":
+            # the array at the bottom of a lazily reshaped / transposed encoding (run lengths, sparse indices), edited in place
+            e = o.encoding
+            for _ in range(6):
+                inner = getattr(e, "_data", None)
+                if isinstance(inner, np.ndarray) or inner is None:
+                    break
+                e = inner
+            data = getattr(e, "_data", None)
+            if not isinstance(data, np.ndarray) or data.ndim == 3 or data.size < 4:
+                raise Inapplicable()
+            try:
+                if data.ndim == 1:
+                    # run-length code [value, count, value, count ...]: exchange the values of the first two runs
+                    a, b = data[0].copy(), data[2].copy()
+                    data[0], data[2] = b, a
+                else:
+                    # sparse indices (n, 3): move one filled cell to a corner that is certainly inside the grid
+                    data[i % len(data)] = 0
+            except ValueError:
                 raise Inapplicable()
         elif k == "encoding_item":
             data = getattr(o.encoding, "data", None)
